@@ -829,3 +829,14 @@ Proof.
   unfold run_population. intros H. rbind H as r E0. destruct r as [p s]. rbind H as r2 E1. injection H as <- _.
   destruct (run_epochs_history _ _ _ _ _ _ _ _ E1) as (p' & s' & Hh & Hl). exists p, s, (fst r2), p', s'. auto.
 Qed.
+
+(* ------------------------------------------------------------------------------------------ *)
+(* 11. the invariant read through the key lists                                                 *)
+(* ------------------------------------------------------------------------------------------ *)
+(* every organism that Population.Organisms or a species' member list refers to is in the heap *)
+Lemma GInv_reachable C p e R NR k x :
+  GInv C p e R NR -> hget (p_heap p) k = Ok x -> gok C e R NR (o_genome x).
+Proof. intros [_ Hp] H. apply Hp. eapply hget_In; eauto. Qed.
+
+Lemma pop_wf_reachable g0 p k x : pop_wf g0 p -> hget (p_heap p) k = Ok x -> wf (o_genome x) /\ retains_io g0 (o_genome x).
+Proof. intros Hp H. apply Hp. eapply hget_In; eauto. Qed.
